@@ -209,3 +209,101 @@ def model_is_native(model):
             return any(bad(x) for x in v.values())
         return False
     return not bad(model)
+
+
+def observe(qual, inputs, registry=None):
+    """call the real function on `inputs`; bad = it raised something else than ValueError or returned a non-finite value"""
+    registry = registry or contract.Registry()
+    c = registry.get(qual)
+    f = real_function(c.target)
+    kw = {p: to_native(c.param_kinds[p], inputs[p]) for p in c.param_names if p in inputs}
+    with warnings.catch_warnings():
+        warnings.simplefilter('ignore')
+        try:
+            res = f(**kw)
+        except ValueError as ex:
+            return dict(bad=False, outcome='ValueError: %s' % ex)
+        except Exception as ex:
+            return dict(bad=True, outcome='%s: %s' % (type(ex).__name__, ex))
+    return dict(bad=has_nonfinite(res), outcome=repr(res))
+
+
+# ----------------------------------------------------------------------------- generic contract fuzzing (bounded fallback)
+def random_value(kind, rng, depth=0):
+    lattice = [-1.0, 0.0, 0.25, 0.5, 0.75, 1.0, 1.5, 2.0, 3.0]
+    if isinstance(kind, kinds.KReal):
+        return rng.choice(lattice)
+    if isinstance(kind, kinds.KInt):
+        return rng.randint(-1, 4)
+    if isinstance(kind, kinds.KBool):
+        return rng.random() < 0.5
+    if isinstance(kind, kinds.KObj):
+        return rng.choice(['a', 'b', 'c'])
+    if isinstance(kind, kinds.KEnum):
+        return rng.choice(kind.members)
+    if isinstance(kind, kinds.KOpt):
+        return None if rng.random() < 0.3 else random_value(kind.inner, rng, depth)
+    if isinstance(kind, kinds.KTup):
+        return [random_value(k, rng, depth) for k in kind.items]
+    if isinstance(kind, kinds.KList):
+        n = kind.n if kind.n is not None else rng.randint(0, 4)
+        return [random_value(kind.elem, rng, depth + 1) for _ in range(n)]
+    if isinstance(kind, kinds.KArr):
+        shape = [s if s is not None else rng.randint(0, 4) for s in kind.shape]
+        if len(shape) == 1:
+            vals = [random_value(kind.elem, rng) for _ in range(shape[0])]
+            if rng.random() < 0.5 and isinstance(kind.elem, kinds.KReal):
+                vals = sorted(vals)
+            return vals
+        rows = []
+        for _ in range(shape[0]):
+            r = [random_value(kind.elem, rng) for _ in range(shape[1])]
+            if shape[1] == 2 and isinstance(kind.elem, kinds.KReal) and rng.random() < 0.8:
+                r = sorted(r)
+            rows.append(r)
+        if shape[1] == 2 and rng.random() < 0.7:
+            rows.sort()
+        return rows
+    return None
+
+
+def fuzz_contract(qual, seed=0, n=300, registry=None):
+    """random small inputs satisfying the precondition; returns the first input on which the real function violates its contract"""
+    import random
+    from . import pools
+    registry = registry or contract.Registry()
+    c = registry.get(qual)
+    if c is None:
+        return None, 0
+    rng = random.Random('%s-%d' % (qual, seed))
+    tried = 0
+    gens = list(pools.function_inputs(c.target, seed)) or None
+    for k in range(n):
+        if gens is not None:
+            if k >= len(gens):
+                break
+            inp = gens[k]
+        else:
+            inp = {}
+            size = None
+            for p in c.param_names:
+                kd = c.param_kinds.get(p)
+                if kd is None:
+                    continue
+                v = random_value(kd, rng)
+                inp[p] = v
+            # arrays of one call usually have to agree in length: equalise 1-D arrays half of the time
+            arrs = [p for p in inp if isinstance(inp[p], list) and inp[p] and not isinstance(inp[p][0], list)]
+            if len(arrs) > 1 and rng.random() < 0.7:
+                m = min(len(inp[p]) for p in arrs)
+                for p in arrs:
+                    inp[p] = inp[p][:m]
+        try:
+            r = replay_function(c.target, inp, registry)
+        except Exception:
+            continue
+        if r.get('pre_ok'):
+            tried += 1
+            if r['confirmed']:
+                return dict(inputs=inp, native=r), tried
+    return None, tried
